@@ -244,13 +244,23 @@ fn run_chunk(id: &str, tier: Tier, space: &str, lo: u64, hi: u64, worker: usize,
                 std::ptr::write_volatile(shm.add(w), 0);
             }
         }
-        let mut child = Command::new(&exe)
-            .args(["child", id, tier.name(), space, &shm_path])
-            .stdin(Stdio::piped())
-            .stdout(Stdio::piped())
-            .stderr(Stdio::null())
-            .spawn()
-            .expect("spawn child");
+        let mut spawned = None;
+        for attempt in 0..8 {
+            match Command::new(&exe).args(["child", id, tier.name(), space, &shm_path]).stdin(Stdio::piped()).stdout(Stdio::piped()).stderr(Stdio::null()).spawn() {
+                Ok(c) => {
+                    spawned = Some(c);
+                    break;
+                }
+                Err(_) => std::thread::sleep(std::time::Duration::from_millis(200 * (attempt + 1))),
+            }
+        }
+        let mut child = match spawned {
+            Some(c) => c,
+            None => {
+                res.unattributed.push(format!("cannot spawn a child process for {}/{}", id, space));
+                break;
+            }
+        };
         {
             let mut si = child.stdin.take().unwrap();
             let _ = writeln!(si, "{} {}", cur, hi);
